@@ -421,6 +421,13 @@ func genOp(c *Ctx, p *pool, out map[uint64]int, hostile bool) aop {
 				return aop{alloc: false, ip: inside(b), mask: cidrMask(p.page+1+r.Intn(128-p.page), 128), class: "free-unallocated-subprefix"}
 			}
 		case 4: // other family / malformed
+			if !p.v6 && r.Pct(40) {
+				// a genuine IPv6 prefix whose last four bytes name an address of the range
+				if b, ok := takenBlock(); ok {
+					ip := append(net.ParseIP("2001:db8::")[:12:12], p.blockBase(b)[len(p.blockBase(b))-4:]...)
+					return aop{alloc: false, ip: ip, mask: cidrMask(128, 128), class: "free-malformed"}
+				}
+			}
 			switch r.Intn(4) {
 			case 0:
 				return aop{alloc: false, ip: r.Bytes(4), mask: cidrMask(24, 32), class: "free-malformed"}
@@ -764,8 +771,8 @@ func runAlloc(c *Ctx) {
 	if c.Prop == "C04" {
 		runAllocConcurrent(c, c.Scale(15000, 400000))
 	}
-	if c.Prop == "C06" {
-		runAllocConcurrent(c, c.Scale(4000, 100000)) // incl. simultaneous Free calls of one block
+	if c.Prop == "C06" || c.Prop == "C07" {
+		runAllocConcurrent(c, c.Scale(4000, 100000)) // incl. simultaneous Free calls of one block, Free mixed with hinted Allocate
 	}
 	c.Extra["rule"] = "histories of 1..200 Allocate/Free ops on IPv4 ranges (sizes 1,2,3,63,64,65,127..129,1000, ending at 255.255.255.255) and IPv6 pools (/0../127 x order 0..10, v4-mapped); hints free/taken/outside/malformed, frees outstanding/sub-prefix/unallocated/below/above/malformed; non-trivial = distinct history with >=2 ops and >=1 successful allocation"
 }
